@@ -118,6 +118,7 @@ func (q *queue) resend() error {
 	}
 
 	if q.size() == 0 {
+		vtrace(q.timeoutManager, "resendEmpty")
 		return nil
 	}
 
@@ -132,6 +133,7 @@ func (q *queue) resend() error {
 	q.topMtx.RUnlock()
 
 	if base == top {
+		vtrace(q.timeoutManager, "resendEmpty")
 		return nil
 	}
 
